@@ -174,6 +174,8 @@ pub struct KnownFinding {
     /// every replay file of the entry (`replay` may be a list)
     pub replays: Vec<String>,
     pub trigger: Vec<String>,
+    /// at least one of these tags must be present (when not empty)
+    pub trigger_any: Vec<String>,
     pub benign: Vec<String>,
     pub class_prefix: String,
     pub classes: Vec<String>,
@@ -223,6 +225,7 @@ pub fn load_known_findings() -> Vec<KnownFinding> {
                 _ => vec![],
             },
             trigger: strs("trigger"),
+            trigger_any: strs("trigger_any"),
             benign: strs("benign"),
             class_prefix: v.get("class_prefix").and_then(|x| x.as_str()).unwrap_or("").to_string(),
             classes: strs("classes"),
